@@ -29,6 +29,9 @@ CHECKS = {
          "Every case in the stated bound is factored, solved and (for histories) refactored by the real public clarabel::qdldl API; each result is judged from the returned L, D, Dinv, perm, inertia and counts against PAP'=LDL' elementwise with a 64*n*eps*|L||D||L'| bound, the regularisation rule, bitwise equality of refactor vs. fresh factorisation, and mandatory errors for every invalid permutation / structure / exactly-zero pivot.",
          "dense reference arithmetic in mc/src/props/c12.rs is trusted; growth is bounded by construction (diagonally dominant or +-1 data); n<=40 random matrices only as a labelled sampling supplement",
          "DESIGN.md §5 C12"),
+ "C19": ("exhaustive enumeration of round trips (31 problems covering every cone variant, empty and extreme data x presolve-reduction active/inactive x settings override x every settings field changed one (thorough: two) at a time) and exhaustive single-site fault enumeration on saved files (every truncation length, every single-byte deletion, every single-byte substitution from a 16-character menu) against the real save_to_file/load_from_file",
+         "Each saved file is parsed independently and compared with the user's originals (exactly with equilibration off, 4 ulp otherwise), loaded settings must equal the saved ones field by field (infinite time_limit included), an override must win, and the loaded solver must reach the same verdict/objective; every one of about 6e4 faulted files per run must yield Err or an internally consistent, usable solver - never a panic or hang.",
+         "faults are single-site; a faulted file that is still a well-formed problem is accepted if consistent; solves after a fault are only demanded when the settings are unchanged", "DESIGN.md §5 C19"),
  "C16": ("bounded-exhaustive enumeration of all small matrices / triplet sequences / raw CSC encodings / block tuples on the real CscMatrix code, dense reference oracle",
          "Every public CscMatrix operation is executed on every matrix up to 3x3 over {-1,0,1,2} and 4x3 over {-1,0,1} (thorough: {-1,0,1,2}), every triplet sequence up to length 4 (5) on a 3x3 grid, every raw encoding (n<=2, nnz<=3; thorough n<=3, nnz<=4) and every pair/quad of small blocks; results compared exactly with a dense reference and an independent canonical-form predicate. This is the bound the property itself names.",
          "dense reference + canonical predicate in mc/src/dense.rs are trusted; integer data so comparisons are exact; larger random shapes only as a labelled sampling supplement",
